@@ -34,6 +34,32 @@ def run(ctx):
 
     impl_fwd = [impl(index.load_response_from_request, i) for i in reqs]
     impl_bwd = [impl(index.load_request_from_response, i) for i in resps]
+    # the pairing functions are declared for payload INSTANCES as well as classes: same answers for a generated instance
+    from kio.schema.errors import ErrorCode
+    from ..values import Gen, to_py
+    gen = Gen(ctx["seed"], [int(e.value) for e in ErrorCode])
+    inst_bad = []
+
+    def impl_inst(fn, i):
+        inst = to_py(classes[i], gen.entity(classes[i]))
+        try:
+            return idx.get(fn(inst), -3)
+        except index.UnknownAPIKey:
+            return -1
+        except index.UnknownEntity:
+            return -2
+        except Exception as e:  # noqa
+            return f"{type(e).__name__}: {e}"[:160]
+
+    for name, fn, ids, by_class in (("load_response_from_request", index.load_response_from_request, reqs, impl_fwd),
+                                    ("load_request_from_response", index.load_request_from_response, resps, impl_bwd)):
+        for i, want in zip(ids, by_class):
+            got = impl_inst(fn, i)
+            if got != want:
+                c = classes[i]
+                inst_bad.append(f"{name}(<instance of {c.__module__}:{c.__qualname__}>) = {got!r}, for the class it is "
+                                f"{(classes[want].__module__ + ':' + classes[want].__qualname__) if isinstance(want, int) and want >= 0 else want}")
+    impl_bad = impl_bad + inst_bad
     enc = ("fun r => match r with IOk j => Z.of_nat j | IErr UnknownAPIKey => (-1)%Z | IErr UnknownEntity => (-2)%Z "
            "| IErr ImportFailure => (-3)%Z end")
     text = ("From Coq Require Import ZArith List Bool String.\nFrom KioV Require Import Schema.Raw Schema.Coherence.\n"
@@ -66,7 +92,7 @@ def run(ctx):
     cov = {
         "exhaustive": True, "evaluations": len(reqs) + len(resps), "distinct_nontrivial": len(reqs) + len(resps),
         "rule": "every request and response class (each a distinct configuration); header rule on all classes of "
-                "request/response modules incl. nested; pairing functions called on every payload class",
+                "request/response modules incl. nested; pairing functions called on every payload class and on a generated instance of every payload class",
         "traces_validated_against_impl": len(reqs) + len(resps),
         "samples": [f"{classes[i].__module__}:{classes[i].__qualname__}" for i in (reqs[:2] + resps[:2])],
         "instance_theorem": "c08_shipped : c08_ok shipped n_schema_classes = true  [vm_compute]",
